@@ -593,3 +593,6 @@ UNITS += [add_class_arguments_unit("C12"), add_function_arguments_unit("C12"), a
 # the values reach the call with the type of their parameter: what Python prints for a number is read back as that number by the loader table
 from contracts.c01 import python_number_text_lemmas  # noqa: E402
 LEMMAS = [python_number_text_lemmas("C12")]
+
+from contracts.share import carried as _carried  # noqa: E402
+UNITS += _carried("C12")
